@@ -27,6 +27,8 @@ fn dispatch(op: &str, args: &[Sexp]) -> String {
         "lefraw.import" => crate::props::c16::op_import(args),
         "rawproto.export" => crate::props::c14::op_export(args),
         "rawproto.import" => crate::props::c14::op_import(args),
+        "rawgds.export" => crate::props::c0607::op_export(args),
+        "gdsraw.import" => crate::props::c0607::op_import(args),
         "tf.apply" => crate::props::c12::op_apply(args),
         "tf.general" => crate::props::c12::op_general(args),
         "raw.flatten" => crate::props::c12::op_flatten(args),
